@@ -2,7 +2,7 @@ PROP = {
     'level': 'proof',
     'coq': ['Properties/C02.v', 'Properties/C02_cache.v'],
     'coq_gen': ['Properties/C07_gen.v'],
-    'rule': ("four generator families; every case is run on the implementation and on the extracted model (Gallina SHA-256) and "
+    'rule': ("generator families (1)-(5); every case is run on the implementation and on the extracted model (Gallina SHA-256) and "
              "judged by oracles stated on the Go side. "
              "(1) cell DAGs built bottom-up so that the exotic-cell rules hold (pruned branch with masks 1..7, library, Merkle "
              "proof, Merkle update, ordinary cells whose mask is the OR of the children's) plus ordinary random DAGs; for the chosen "
@@ -31,8 +31,17 @@ PROP = {
              "that mask ['builder-level'], hash and depth at levels 0..3 (boc.VerifLevelHash) = those of the same content rebuilt by "
              "writers with the rule's masks ['builder-hash'], whose DAG is also run as a c02.hashes case against the model; the body "
              "parsed from the proof equals the in-memory body. "
-             "(4) cells built by writers and exotic-flagged by the hook, parsed from reference-serialised BOCs, rebuilt without "
-             "sharing: the oracles of (1). "
+             "(4) ORIGIN 'PARSED FROM A BAG OF CELLS': for every DAG of (1) and for DAGs with nested Merkle proofs/updates over pruned "
+             "branches of masks 1..7 (non-contiguous masks 2, 4, 5, 6 on Merkle, ordinary and pruned cells), the reachable part is "
+             "written by the independent reference serialiser in a random header variant (three magics, index, CRC, cache bits, "
+             "over-wide size/offset fields, and in 60% of the cases stored hashes and depths for every cell, popcount(mask)+1 slots as "
+             "TON's WithIntHashes / top hash) with EVERY cell as a root; every parsed cell must have the type, Level() and (hash, "
+             "depth) at levels 0..3 of the cell built in memory by writers ['origin-parse' when a valid bag is rejected, "
+             "'origin-parsed' when a cell differs]; a sixth of the bags (half of the nested-Merkle ones) are also run through the "
+             "extracted model of the parser + hashing, row by row [c02.parsed]. "
+             "(5) CONCURRENCY: 2..16 goroutines, each with its own cells and its own boc.Hasher, hash all their cells 150 times "
+             "(Cell.Hash and Hasher.Hash alternating) at the same time, in a guarded child process; every hash must be the one computed "
+             "sequentially before ['conc-hash'; implementation only, c02.conc]. "
              "A class is (family, root cell type / depth bucket / deepest prune / key width, mask or count, outcome)."),
     'explanation': ("coq/Properties/C02.v: for every hash function, every tree over all cell types with masks 0..7 and every level, the "
                     "model of newImmutableCell/Hash/Depth equals the declarative representation hash (Spec/ReprHash.v); evaluation of a "
@@ -64,6 +73,11 @@ PROP = {
                     "Hasher.HashString's hex string is modelled by the hash bytes; Cell.ToBocCustomWithHasher and the hasher of a reused "
                     "tlb.Decoder are exercised on the implementation only (compared with fresh computations), they are not in the Coq "
                     "model of the hasher",
+                    "the model is sequential: that concurrent hashing of unrelated cells gives the sequential hashes (no shared mutable "
+                    "state in the package) is checked by the concurrency oracle on the implementation only; a data race that does not "
+                    "show within 150 rounds x 2..16 goroutines is not seen",
+                    "stored hashes/depths inside a bag (descriptor bit 16) are skipped, not verified, by the library's parser; the "
+                    "reference serialiser fills them with arbitrary bytes, the model of the parser skips popcount(mask)+1 slots",
                     "proof-builder theorems and cases: source trees whose masks obey the rule and are 0 or 1 (ordinary cells, library cells, "
                     "level-1 pruned branches). For a source of level >= 2 CreateProof still gives the Merkle-proof cell mask 0 and the new "
                     "pruned branch mask 1 (observation recorded under C18); such sources are outside this part"],
@@ -84,9 +98,11 @@ META = {
              "ProveKeyInHashmap is proved to produce trees that obey it, hence Level() and all level hashes of built proofs "
              "are the TON values; a witness refutes the direct-parent-only variant. The extracted models (Gallina SHA-256) are "
              "compared with the implementation at all four levels on generated exotic DAGs, on real blocks, on histories over "
-             "one boc.Hasher around the depth limit (chains of depth 1022..1026, deep sub-branches), and on every cell of "
-             "proofs built by Cursor/CreateProof and ProveKeyInHashmap; Go-side oracles state cached = fresh, never a panic, "
-             "and mask = TON rule for in-memory and parsed builder output."),
+             "one boc.Hasher around the depth limit (chains of depth 1022..1026, deep sub-branches), on every cell of "
+             "proofs built by Cursor/CreateProof and ProveKeyInHashmap, and on every cell of bags written by an independent "
+             "serialiser in every header variant incl. stored hashes for all masks 0..7 (nested Merkle cells); Go-side oracles "
+             "state cached = fresh, never a panic, mask = TON rule for in-memory and parsed builder output, parsed = built in "
+             "memory at all levels, and concurrent = sequential hashes."),
     'design_ref': 'DESIGN.md §6 C02',
     'note': ("Trusted: Coq kernel, extraction, drivers, Go harness, the hand-written declarative spec (from the TON "
              "whitepaper / DataCell.cpp rules) and the statement of the level-mask rule. The models are tied to the Go code by "
